@@ -9,7 +9,7 @@ import (
 	"pgregory.net/rapid"
 )
 
-var unsafeKinds = []string{"remove-function", "remove-constructor", "remove-field", "change-field-type", "change-field-type", "change-field-type", "change-mask-bit", "change-mask-ref", "add-mask", "remove-mask", "append-unmasked-field", "reuse-bit", "bare-type-to-union", "remove-template-arg"}
+var unsafeKinds = []string{"remove-function", "remove-constructor", "remove-field", "change-field-type", "change-field-type", "change-field-type", "change-mask-bit", "change-mask-ref", "add-mask", "remove-mask", "append-unmasked-field", "reuse-bit", "bare-type-to-union", "remove-template-arg", "switch-nat-source", "switch-nat-source", "reuse-forwarded-bit", "reuse-forwarded-bit"}
 
 // leafTypes collects pointers to every primitive-like leaf (int/long/string/float/double) of a type tree.
 func leafTypes(t *schemagen.TypeExpr, out *[]*schemagen.TypeExpr) {
@@ -294,7 +294,7 @@ func applyUnsafe(s *schemagen.Schema, e edit) string {
 		}
 		return fmt.Sprintf("removed template argument %s of %s", pname, c.Name)
 	}
-	return ""
+	return applyUnsafe2(s, e)
 }
 
 func mentions(t *schemagen.TypeExpr, name string) bool {
